@@ -126,4 +126,16 @@ PROPS = {
             "get_many streams and the subscriber channels are drained / kept alive by the harness",
         ],
     },
+    "C09": {
+        "lean_modules": ["DocsModel.Props.C09"],
+        "trusted_base": COMMON_TRUST + [
+            "postcard 1.1.3 and the serde derives are modelled (layout read from the sources and confirmed by the differential check), not verified; tokio_util FramedRead is modelled as 'append chunk, decode while possible'",
+            "hook H3 (export of the private frame codec)",
+        ],
+        "assumptions": [
+            "'never a panic on arbitrary bytes' cannot be a Lean theorem (the Lean decoders are total by construction): it rests on the differential fuzz stream under catch_unwind — partial",
+            "DocTicket, Capability, DownloadPolicy, key types and third-party Deserialize impls (EndpointAddr, RelayUrl) have no Lean model: only no-panic and accept/reject stability are exercised",
+            "the statement 'any chunking of the concatenated frames yields exactly the frames' is checked by the harness at every split point and on random chunkings; the Lean file proves its two ingredients (a complete frame decodes to itself leaving the rest; every proper prefix of a frame is 'need more')",
+        ],
+    },
 }
